@@ -260,6 +260,31 @@ def _lower_extend(st, fx, occurrences):
     return None
 
 
+def _lower_update(st):
+    """D.update(a=E1, b=E2) / D.update({'a': E1, 'b': E2}) as a statement, D a plain path and the values not reading D
+    -> D['a'] = E1; D['b'] = E2"""
+    if not (isinstance(st, ast.Expr) and isinstance(st.value, ast.Call) and isinstance(st.value.func, ast.Attribute) and st.value.func.attr == "update"):
+        return None
+    c = st.value
+    D = c.func.value
+    dp = access_path(D)
+    if dp is None or not _no_call(D):
+        return None
+    pairs = []
+    if len(c.args) == 1 and not c.keywords and isinstance(c.args[0], ast.Dict) and all(isinstance(k, ast.Constant) and isinstance(k.value, str) for k in c.args[0].keys):
+        pairs = [(k.value, v) for k, v in zip(c.args[0].keys, c.args[0].values)]
+    elif not c.args and c.keywords and all(k.arg is not None for k in c.keywords):
+        pairs = [(k.arg, k.value) for k in c.keywords]
+    if not pairs or len(pairs) > 8:
+        return None
+    root = root_name(D)
+    for _, v in pairs:
+        if any(isinstance(n, ast.Name) and n.id == root for n in ast.walk(v)) or any(isinstance(n, (ast.Call, ast.NamedExpr, ast.Await, ast.Yield)) for n in ast.walk(v)):
+            return None
+    STATS["update"] = STATS.get("update", 0) + 1
+    return [_loc(ast.Assign(targets=[ast.Subscript(value=copy.deepcopy(D), slice=ast.Constant(value=k), ctx=ast.Store())], value=v), st) for k, v in pairs]
+
+
 def _lower_setdefault(st):
     # d.setdefault(k, []).append(v)
     if not (isinstance(st, ast.Expr) and isinstance(st.value, ast.Call)
@@ -393,6 +418,19 @@ class _Cmp(ast.NodeTransformer):
     def visit_Call(self, n):
         self.generic_visit(n)
         f = access_path(n.func) or ""
+        # (lambda a, b: E)(x, y) with plain arguments: E[a := x, b := y]
+        if isinstance(n.func, ast.Lambda) and not n.keywords and not n.func.args.defaults and not n.func.args.vararg and not n.func.args.kwarg \
+                and not n.func.args.kwonlyargs and len(n.args) == len(n.func.args.args) and all(_no_call(a) and not isinstance(a, ast.Starred) for a in n.args) \
+                and not any(isinstance(x, (ast.Lambda, ast.ListComp, ast.SetComp, ast.DictComp, ast.GeneratorExp, ast.NamedExpr)) for x in ast.walk(n.func.body)):
+            m = dict(zip([a.arg for a in n.func.args.args], n.args))
+
+            class B(ast.NodeTransformer):
+                def visit_Name(self, x):
+                    if x.id in m and isinstance(x.ctx, ast.Load):
+                        return _loc(copy.deepcopy(m[x.id]), x)
+                    return x
+            STATS["beta"] = STATS.get("beta", 0) + 1
+            return _loc(B().visit(copy.deepcopy(n.func.body)), n)
         # consumers that read their whole argument: a generator argument is the list of the same elements
         if f in ("sum", "min", "max", "sorted", "list", "tuple", "set", "frozenset", "math.fsum", "np.sum", "numpy.sum") and n.args \
                 and isinstance(n.args[0], ast.GeneratorExp):
@@ -1102,7 +1140,7 @@ def _stmt(st, fx, occ):
         rest = st.orelse
         st.orelse = []
         return _block([st] + rest, fx, occ)
-    for rewrite in (_split_tuple, _split_ifexp, _lower_setdefault):
+    for rewrite in (_split_tuple, _split_ifexp, _lower_setdefault, _lower_update):
         r = rewrite(st)
         if r is not None:
             return _block(r, fx, occ)
@@ -1291,6 +1329,58 @@ def _as_load_expr(t):
     return t
 
 
+def _fuse_list_loops(fn, fx):
+    """L = [E for v in IT] where L is only ever the iterable of for-loops, E is plain arithmetic over v and names that are
+    left alone afterwards  ->  each `for T in L: body` becomes `for v' in IT: T = E'; body` (the list is a stored
+    re-spelling of IT; exceptions of E aside, the loops see the same elements in the same order)"""
+    changed = False
+    for node in list(ast.walk(fn)):
+        for f in ("body", "orelse", "finalbody"):
+            b = getattr(node, f, None)
+            if not (isinstance(b, list) and b and isinstance(b[0], ast.stmt)):
+                continue
+            for k, st in enumerate(list(b)):
+                if not (isinstance(st, ast.Assign) and len(st.targets) == 1 and isinstance(st.targets[0], ast.Name) and isinstance(st.value, ast.ListComp)
+                        and len(st.value.generators) == 1 and not st.value.generators[0].ifs and not st.value.generators[0].is_async):
+                    continue
+                L = st.targets[0].id
+                comp = st.value
+                g = comp.generators[0]
+                if any(isinstance(c, ast.Call) and not (isinstance(c.func, ast.Name) and c.func.id in ("float", "int", "abs", "min", "max", "len", "enumerate", "zip", "range", "reversed"))
+                       for c in ast.walk(comp)):
+                    continue
+                if any(isinstance(c, (ast.Lambda, ast.NamedExpr, ast.ListComp, ast.GeneratorExp, ast.DictComp, ast.SetComp)) for c in ast.walk(comp) if c is not comp):
+                    continue
+                stores = [n for n in ast.walk(fn) if isinstance(n, ast.Name) and n.id == L and not isinstance(n.ctx, ast.Load)]
+                loads = [n for n in ast.walk(fn) if isinstance(n, ast.Name) and n.id == L and isinstance(n.ctx, ast.Load)]
+                loops = [n for n in ast.walk(fn) if isinstance(n, ast.For) and isinstance(n.iter, ast.Name) and n.iter.id == L and not n.orelse]
+                if len(stores) != 1 or not loads or len(loads) != len(loops) or any(lp.lineno <= st.lineno for lp in loops):
+                    continue
+                tvars = {n.id for n in ast.walk(g.target) if isinstance(n, ast.Name)}
+                reads = {n.id for n in ast.walk(comp) if isinstance(n, ast.Name) and isinstance(n.ctx, ast.Load)} - tvars
+                # what the element expression reads must keep its value from the definition to the last loop
+                last = max(getattr(lp, "end_lineno", lp.lineno) or lp.lineno for lp in loops)
+                if any(isinstance(n, ast.Name) and n.id in reads and not isinstance(n.ctx, ast.Load) and st.lineno < getattr(n, "lineno", 0) <= last for n in ast.walk(fn)):
+                    continue
+                if any(isinstance(n, (ast.Attribute, ast.Subscript)) and not isinstance(n.ctx, ast.Load) and root_name(n) in reads
+                       and st.lineno < getattr(n, "lineno", 0) <= last for n in ast.walk(fn)):
+                    continue
+                for lp in loops:
+                    ren = {v: fx.fresh("f") for v in sorted(tvars)}
+                    tgt = _rename(copy.deepcopy(g.target), ren)
+                    it = _rename(copy.deepcopy(g.iter), ren)
+                    elt = _rename(copy.deepcopy(comp.elt), ren)
+                    bind = _loc(ast.Assign(targets=[lp.target], value=elt), lp)
+                    lp.target = tgt
+                    lp.iter = it
+                    lp.body = [bind] + lp.body
+                b.remove(st)
+                ast.fix_missing_locations(fn)
+                STATS["fuse_loop"] = STATS.get("fuse_loop", 0) + 1
+                changed = True
+    return changed
+
+
 def _strip_annotations(fn):
     """annotated assignments of the function's own statements become plain ones (before any other pass looks at them)"""
     for node in ast.walk(fn):
@@ -1375,9 +1465,57 @@ def _slice_locals(fn):
     return changed
 
 
+def _lambda_locals(fn):
+    """key = lambda m: m.costs[dim]; xs.sort(key=key); d = key(a) - key(b)  ->  the lambda written at its uses (calls of it are
+    beta-reduced later), when the names it closes over are left alone while the local is in use"""
+    changed = False
+    for node in ast.walk(fn):
+        for f in ("body", "orelse", "finalbody"):
+            b = getattr(node, f, None)
+            if not (isinstance(b, list) and b and isinstance(b[0], ast.stmt)):
+                continue
+            k = 0
+            while k < len(b):
+                st = b[k]
+                k += 1
+                if not (isinstance(st, ast.Assign) and len(st.targets) == 1 and isinstance(st.targets[0], ast.Name) and isinstance(st.value, ast.Lambda)):
+                    continue
+                lam = st.value
+                if lam.args.defaults or lam.args.vararg or lam.args.kwarg or lam.args.kwonlyargs:
+                    continue
+                x = st.targets[0].id
+                params = {a.arg for a in lam.args.args}
+                free = {n.id for n in ast.walk(lam.body) if isinstance(n, ast.Name)} - params
+                if x in free:
+                    continue
+                region = b[k:]
+                total = sum(1 for n in ast.walk(fn) if isinstance(n, ast.Name) and n.id == x)
+                uses = [n for r in region for n in ast.walk(r) if isinstance(n, ast.Name) and n.id == x]
+                if len(uses) + 1 != total or not uses or any(not isinstance(u.ctx, ast.Load) for u in uses):
+                    continue
+                if any(isinstance(n, ast.Name) and n.id in free and not isinstance(n.ctx, ast.Load) for r in region for n in ast.walk(r)):
+                    continue
+                if any(isinstance(n, (ast.FunctionDef, ast.AsyncFunctionDef)) for r in region for n in ast.walk(r)):
+                    continue
+
+                class S(ast.NodeTransformer):
+                    def visit_Name(self, n):
+                        if n.id == x and isinstance(n.ctx, ast.Load):
+                            return _loc(copy.deepcopy(lam), n)
+                        return n
+                for i in range(k, len(b)):
+                    b[i] = S().visit(b[i])
+                del b[k - 1]
+                k -= 1
+                STATS["lambda_local"] = STATS.get("lambda_local", 0) + 1
+                changed = True
+    return changed
+
+
 def _unalias(fn):
     _fresh_then_store(fn)
     _slice_locals(fn)
+    _lambda_locals(fn)
     for _ in range(40):
         if not _unalias_once(fn):
             break
@@ -1391,6 +1529,7 @@ def normalize_function(fn):
     if UNALIAS[0]:
         _unalias(fn)
     fx = _Fn(fn)
+    _fuse_list_loops(fn, fx)
     occ = {}
     for n in ast.walk(fn):
         if isinstance(n, ast.Name):
@@ -1424,6 +1563,11 @@ def _literal(e):
         return isinstance(e.operand, ast.Constant) and isinstance(e.operand.value, (int, float))
     if isinstance(e, ast.Tuple):
         return all(_literal(x) for x in e.elts)
+    if isinstance(e, ast.Name):
+        # a builtin exception class (TRANSIENT = (TimeoutError, RuntimeError)): as immutable as a number
+        import builtins
+        b = getattr(builtins, e.id, None)
+        return isinstance(b, type) and issubclass(b, BaseException)
     return False
 
 
